@@ -186,8 +186,6 @@ class SparseDisk:
             grain_directory_offset = self.header.primary_grain_directory_offset
             self._grain_entry_type = c_vmdk.uint32
 
-            self._grain_directory = c_vmdk.uint32[self._grain_directory_size](fh)
-
         elif self.header.magic == c_vmdk.SESPARSE_CONST_HEADER_MAGIC:
             self.is_sesparse = True
 
